@@ -30,6 +30,16 @@ def blockwise (d : Nat) (g : List α → β) : List Nat → List α → List β
   | [], _ => []
   | c :: cs, l => sten d g (l.take (c + d)) ++ blockwise d g cs (l.drop c)
 
+/-- the window function of a two-point operator (`d` only totalises the look-up; windows of `sten 1`
+    always have two cells) -/
+def win2 (op : α → α → β) (d : α) (w : List α) : β := op (w.getD 0 d) (w.getD 1 d)
+
+/-- a collection of independent lines (the non-core dimensions, flattened) cut into blocks:
+    what dask="parallelized" hands to the kernel one block at a time -/
+def splitBy : List Nat → List α → List (List α)
+  | [], _ => []
+  | c :: cs, l => l.take c :: splitBy cs (l.drop c)
+
 /-- `_check_if_length_would_change`: refuse when the signature mentions a disallowed position -/
 def overlapAllowed (disallowed : List String) (positions : List Pos) : Bool :=
   positions.all (fun p => !disallowed.contains p.toString)
